@@ -145,7 +145,7 @@ def explore(tier, seed):
     for name in PATTERNS:
         chunks.append(("hg", name, 4 if tier == "quick" else 6))
     for name in ("semver", "build", "legacy"):
-        for twin in (False, True):
+        for twin in (False, True, "gitfile"):  # gitfile: repository data outside the work tree, `.git` is a file
             for pos in ("below", "between"):
                 for first in PLACES:
                     chunks.append(("realgit", name, twin, pos, first))
@@ -169,7 +169,7 @@ def run_state(st, name, pos, scope, ignore, placement, tags, order=None, kind="g
         served_all = [served_all[i] for i in order if i < len(served_all)]
     world.clear_dir(".")
     world.write_tree(project(name, cfgv, cfg_scope or scope))
-    os.mkdir("." + kind)
+    world.mark_repo(kind, as_file=bool(cfg_scope) and kind == "git")  # the command-line-scope runs also have `.git` as a FILE (linked work tree)
     want_update = expected_start(name, cfgv, scope, ignore, placement, tags)
     want_show = expected_start(name, cfgv, cfg_scope or scope, ignore, placement, tags)
     case = {"pattern": name, "config": cfgv, "scope": scope, "ignore_vcs_tag": ignore, "tags": {t: pl for t, pl in zip(tags, placement) if pl != "absent"},
@@ -347,7 +347,7 @@ def real_git(st, name, twin_branch, only_pos=None, only_first=None):
             for scope in SCOPES:
                 d = pool.fresh_dir("c09git")
                 os.chdir(d)
-                gw.init()
+                gw.init(separate=twin_branch == "gitfile")
                 world.write_tree(project(name, cfgv, scope))
                 gw.commit_all("init")
                 gw.git("branch", "other")
@@ -362,7 +362,7 @@ def real_git(st, name, twin_branch, only_pos=None, only_first=None):
                         gw.git("tag", t)
                         gw.git("checkout", "-q", "main")
                 present = [t for t, pl in zip(tags, placement) if pl != "absent"]
-                if twin_branch and present:
+                if twin_branch is True and present:
                     top = greatest(present)[0]
                     gw.git("branch", top, check=False)  # a maintenance branch named like the newest tag
                 want = expected_start(name, cfgv, scope, False, placement, tags)
@@ -381,7 +381,7 @@ def real_git(st, name, twin_branch, only_pos=None, only_first=None):
                     st.nontriv("realgit", name, pos, scope, placement, twin_branch)
                 if o.exit != 0 or got not in want:
                     st.outcomes["violation"] += 1
-                    st.violation(f"C09:start-version:real-git:{name}:{scope}" + (":branch-named-like-tag" if twin_branch else ""), case,
+                    st.violation(f"C09:start-version:real-git:{name}:{scope}" + (":branch-named-like-tag" if twin_branch is True else ":gitfile" if twin_branch else ""), case,
                                  {"shown": got, "acceptable": sorted(want), "exit": o.exit, "crashed": o.crashed, "log": o.log[-2:]})
                 else:
                     st.validated += 1
